@@ -52,7 +52,9 @@ META = {
                 'overridden by the write set; first write attempt takes the lock; parent write under lock fails at timeout=0)',
                 'CPython weakref/GC: an instance dies when neither the application nor a strong cache entry references it '
                 '(harness runs gc.collect() after every drop/cull)'],
-    'modelled': ['lazyUpdate classes live in a model of their own (Model/TxLazy.lean: pending set per instance, cache membership as one '
+    'modelled': ['inheritable classes and aggregates (count/sum/max) are outside the Lean models: oracle-only streams (selects and aggregates '
+                 'on either side must equal the committed rows / the transaction\'s view; isolation, commit = view, rollback over all tables)',
+                 'lazyUpdate classes live in a model of their own (Model/TxLazy.lean: pending set per instance, cache membership as one '
                  'flag), tied by its own correspondence stream; eager and lazy instances are not mixed in one history',
                  'cascading deletes (cascade=True / \'null\' foreign keys) through a transaction are outside the Lean model: a separate '
                  'oracle-only stream checks isolation, commit = view and rollback over all tables with the raw observer',
@@ -765,20 +767,38 @@ class CascadeWorld:
     """owner rows referenced by dependent rows through a cascade=True and a cascade='null' foreign key; the same
     raw-observer oracle as above, over both tables"""
 
-    def __init__(self, dc):
-        e = env()
+    def setup(self, e):
         if 'own' not in e:
             from sqlobject import SQLObject, IntCol, ForeignKey
             e['own'] = type('C07Own', (SQLObject,), {'n': IntCol()})
             e['dep'] = type('C07Dep', (SQLObject,), {'own': ForeignKey('C07Own', cascade=True),
                                                      'alt': ForeignKey('C07Own', cascade='null', default=None),
                                                      'n': IntCol()})
-        e['count'][0] += 1
         self.own, self.dep = e['own'], e['dep']
+        self.classes = [self.own, self.dep]
+
+    def make(self, kind, op, kw):
+        if kind == 'ocreate':
+            return self.own(id=op[2], n=op[3], **kw)
+        if kind == 'dcreate':
+            return self.dep(id=op[2], ownID=op[3], altID=op[4], n=op[5], **kw)
+        return None
+
+    def ids_of(self, ref, i):
+        return sorted(ref[i])
+
+    def ns_of(self, ref, i):
+        return [ref[0][k] for k in ref[0]] if i == 0 else [ref[1][k][2] for k in ref[1]]
+
+    def __init__(self, dc):
+        e = env()
+        self.setup(e)
+        e['count'][0] += 1
         self.path = os.path.join(e['dir'], 'c%d.db' % e['count'][0])
         self.conn = sqlo.file_conn(self.path, timeout=0, cache=dc)
-        for c in (self.own, self.dep):
+        for c in self.classes:
             c._connection = self.conn
+        for c in self.classes:
             c.createTable()
         self.raw = sqlite3.connect(self.path, isolation_level=None, timeout=0)
         self.t = self.conn.transaction()
@@ -827,14 +847,18 @@ class CascadeWorld:
         sd = op[1] if kind not in TX_KINDS else 'T'
         raw_before, view_before, was_obsolete = self.raw_now, self.view_now, self.obsolete
         kw = {'connection': self.t} if sd == 'T' else {}
+        observed = None
         try:
-            if kind == 'ocreate':
-                self.h[sd].append(self.own(id=op[2], n=op[3], **kw))
-            elif kind == 'dcreate':
-                self.h[sd].append(self.dep(id=op[2], ownID=op[3], altID=op[4], n=op[5], **kw))
+            if kind.endswith('create'):
+                self.h[sd].append(self.make(kind, op, kw))
             elif kind in ('oget', 'dget'):
-                cls = self.own if kind == 'oget' else self.dep
+                cls = self.classes[0] if kind == 'oget' else self.classes[1]
                 self.h[sd].append(cls.get(op[2], **kw))
+            elif kind == 'select':
+                observed = sorted(o.id for o in self.classes[op[2]].select(**kw))
+            elif kind == 'agg':
+                sel = self.classes[op[2]].select(**kw)
+                observed = (sel.count(), sel.sum('n'), sel.max('n'), self.classes[op[2]].select(self.classes[op[2]].q.n >= 5, **kw).count())
             elif kind in ('destroy', 'set', 'read'):
                 if op[2] >= len(self.h[sd]):
                     ans = 'bad'
@@ -872,6 +896,19 @@ class CascadeWorld:
         if sd == 'T' and not (kind == 'commit' and not was_obsolete) and raw != raw_before:
             self.fails.append((None, 'committed rows of some table changed by transaction-side %s (not a commit): %s -> %s'
                                % (kind, raw_before, raw), 'cascade-isolation'))
+        # what a select / an aggregate answers: the committed rows for the parent, the transaction's own view for the transaction
+        ref = raw_before if (sd == 'P' or view_before is None) else view_before
+        if kind == 'select' and ans == 'ok' and observed != self.ids_of(ref, op[2]):
+            self.fails.append((None, '%s select of class %d returned ids %s, the %s holds %s' % (
+                sd, op[2], observed, 'database' if sd == 'P' else 'transaction view', self.ids_of(ref, op[2])), 'select-ids'))
+        if kind == 'agg' and ans == 'ok':
+            ns = self.ns_of(ref, op[2])
+            want = (len(ns), sum(ns) if ns else None, max(ns) if ns else None, len([x for x in ns if x >= 5]))
+            if observed != want:
+                self.fails.append((None, '%s count/sum/max/filtered count of class %d answered %s, the %s gives %s' % (
+                    sd, op[2], observed, 'database' if sd == 'P' else 'transaction view', want), 'aggregate'))
+        if kind.endswith('create') and sd == 'P' and ans == 'ok' and raw == raw_before:
+            self.fails.append((None, 'a row created through the parent connection is not in the database', 'parent-write-lost'))
         if kind == 'commit' and not was_obsolete and ans == 'ok' and raw != view_before:
             self.fails.append((None, 'after commit the committed tables are %s, the transaction saw %s' % (raw, view_before),
                                'cascade-commit-applies-view'))
@@ -890,8 +927,8 @@ def run_cascade(dc, ops):
         w.close()
 
 
-def gen_cascade(rng, length, dc):
-    w = CascadeWorld(dc)
+def gen_cascade(rng, length, dc, world=None):
+    w = (world or CascadeWorld)(dc)
     ops = []
     try:
         for _ in range(length):
@@ -915,7 +952,9 @@ def gen_cascade(rng, length, dc):
                 op = ('destroy', sd, rng.randrange(len(w.h[sd])))
             elif r < 0.84 and w.h[sd]:
                 op = ('set', sd, rng.randrange(len(w.h[sd])), rng.randint(10, 99))
-            elif r < 0.90:
+            elif r < 0.87:
+                op = ('select', sd, rng.randrange(2)) if rng.random() < 0.5 else ('agg', sd, rng.randrange(2))
+            elif r < 0.92:
                 op = ('commit', 1 if rng.random() < 0.2 else 0)
             elif r < 0.97:
                 op = ('rollback',)
@@ -928,7 +967,49 @@ def gen_cascade(rng, length, dc):
         w.close()
 
 
+class InheritWorld(CascadeWorld):
+    """an InheritableSQLObject parent class and a child class (two tables); same oracle"""
+
+    def setup(self, e):
+        if 'animal' not in e:
+            from sqlobject import IntCol
+            from sqlobject.inheritance import InheritableSQLObject
+            e['animal'] = type('C07Animal', (InheritableSQLObject,), {'n': IntCol()})
+            e['dog'] = type('C07Dog', (e['animal'],), {'m': IntCol()})
+        self.classes = [e['animal'], e['dog']]
+
+    def make(self, kind, op, kw):
+        if kind == 'ocreate':
+            return self.classes[0](id=op[2], n=op[3], **kw)
+        if kind == 'dcreate':
+            return self.classes[1](id=op[2], n=op[5], m=op[5] + 1, **kw)
+        return None
+
+    def tables(self, q):
+        def rows(sql):
+            r = q(sql)
+            return r.fetchall() if hasattr(r, 'fetchall') else r
+        return (dict((r[0], (r[1], r[2])) for r in rows('SELECT id, n, child_name FROM %s' % self.classes[0].sqlmeta.table)),
+                dict((r[0], r[1]) for r in rows('SELECT id, m FROM %s' % self.classes[1].sqlmeta.table)))
+
+    def ns_of(self, ref, i):
+        return [ref[0][k][0] for k in ref[0]] if i == 0 else [ref[0][k][0] for k in ref[1] if k in ref[0]]
+
+
+def run_inherit(dc, ops):
+    w = InheritWorld(dc)
+    try:
+        for op in ops:
+            w.do(tuple(op))
+        return w.answers, w.fails
+    finally:
+        w.close()
+
+
 CASCADE_CORPUS = [
+    ('aggregates and selects through the transaction over uncommitted creates / deletes', True,
+     [('ocreate', 'P', 1, 3), ('ocreate', 'T', 2, 8), ('dcreate', 'T', 1, 2, None, 6), ('agg', 'T', 0), ('agg', 'T', 1), ('select', 'T', 0),
+      ('agg', 'P', 0), ('select', 'P', 1), ('oget', 'T', 1), ('destroy', 'T', 2), ('agg', 'T', 0), ('rollback',), ('begin',), ('agg', 'T', 0)]),
     ('cascade=True and cascade=null dependants of a row deleted through the transaction, then rollback', True,
      [('ocreate', 'P', 1, 1), ('ocreate', 'P', 2, 2), ('dcreate', 'P', 1, 1, None, 5), ('dcreate', 'P', 2, 2, 1, 6),
       ('oget', 'T', 1), ('destroy', 'T', 0), ('rollback',), ('begin',), ('oget', 'T', 1)]),
@@ -937,6 +1018,17 @@ CASCADE_CORPUS = [
       ('oget', 'T', 1), ('destroy', 'T', 0), ('oget', 'P', 1), ('dget', 'P', 1), ('commit', 0), ('dget', 'P', 2)]),
     ('cache=False', False,
      [('ocreate', 'P', 1, 1), ('dcreate', 'P', 1, 1, 1, 5), ('oget', 'T', 1), ('destroy', 'T', 0), ('commit', 1), ('begin',)]),
+]
+
+
+INHERIT_CORPUS = [
+    ('select of the inheritable parent class through the transaction, then work on the parent connection', True,
+     [('ocreate', 'P', 1, 1), ('dcreate', 'P', 2, 0, None, 4), ('dcreate', 'T', 3, 0, None, 7), ('select', 'T', 0), ('select', 'T', 1),
+      ('select', 'P', 0), ('agg', 'P', 0), ('ocreate', 'P', 4, 9), ('select', 'T', 0), ('rollback',), ('select', 'P', 0), ('begin',),
+      ('select', 'T', 0), ('agg', 'T', 1)]),
+    ('aggregates through the transaction see its uncommitted work', True,
+     [('ocreate', 'P', 1, 3), ('ocreate', 'P', 2, 7), ('oget', 'T', 1), ('set', 'T', 0, 40), ('dcreate', 'T', 3, 0, None, 9), ('agg', 'T', 0),
+      ('agg', 'T', 1), ('agg', 'P', 0), ('commit', 0), ('agg', 'P', 0)]),
 ]
 
 
@@ -962,12 +1054,14 @@ def shrink_generic(runner, dc, ops, detail, budget=120):
     return ops
 
 
-def report_cascade(ctx, dc, ops, fails):
+def report_cascade(ctx, dc, ops, fails, runner=None, tag='cascade'):
+    runner = runner or run_cascade
     for key, what, detail in fails[:1]:
         _unknown[0] += 1
-        small = shrink_generic(run_cascade, dc, ops, detail) if _unknown[0] <= 3 else ops
-        k2 = 'C07:%s:%s' % (detail, '-'.join(o[0] + (o[1] if o[0] not in TX_KINDS else '') for o in small))
-        ctx.oracle_fail(k2, what, {'cascade': True, 'dc': dc, 'ops': [list(o) for o in small]})
+        small = shrink_generic(runner, dc, ops, detail) if _unknown[0] <= 3 else ops
+        k2 = 'C07:%s%s:%s' % ('inherit-' if tag == 'inherit' else '', detail,
+                              '-'.join(o[0] + (o[1] if o[0] not in TX_KINDS else '') for o in small))
+        ctx.oracle_fail(k2, what, {tag: True, 'dc': dc, 'ops': [list(o) for o in small]})
 
 
 # -------------------------------------------------------------------- lazyUpdate classes: pending (unsynced) assignments
@@ -1335,6 +1429,19 @@ def run(ctx):
         ctx.case(('cascade', tuple(answers)), nontrivial=any(o[0] == 'destroy' for o in ops),
                  sample={'cascade': [list(o) for o in ops[:10]], 'answers': answers[-2:]}, kind='cascade history')
         report_cascade(ctx, dc, ops, fails)
+    # inheritable classes (parent + child table) through the transaction; selects and aggregates on both sides
+    for name, dc, ops in INHERIT_CORPUS:
+        answers, fails = run_inherit(dc, ops)
+        ctx.case(('inherit-corpus', name), sample={'inherit': name, 'answers': answers[-3:]}, kind='inherit corpus')
+        report_cascade(ctx, dc, ops, fails, run_inherit, 'inherit')
+    for h in range(ctx.budget(200, 2000)):
+        if _unknown[0] >= 12:
+            break
+        dc = rng.random() < 0.8
+        ops, answers, fails = gen_cascade(rng, rng.randint(4, 14), dc, InheritWorld)
+        ctx.case(('inherit', tuple(answers)), nontrivial=any(o[0] in ('select', 'agg') for o in ops),
+                 sample={'inherit': [list(o) for o in ops[:10]], 'answers': answers[-2:]}, kind='inherit history')
+        report_cascade(ctx, dc, ops, fails, run_inherit, 'inherit')
     # lazyUpdate class: pending assignments, syncUpdate through transaction and parent instances
     for name, ops in LAZY_CORPUS:
         lines, impl, fails = run_lazy(True, ops)
@@ -1370,6 +1477,9 @@ def replay(case):
     if case.get('lazy'):
         lines, impl, fails = run_lazy(True, [tuple(o) for o in case['ops']])
         return not fails, '\n'.join('%-22s -> %s' % (l, i) for l, i in zip(lines, impl)) + '\n' + '\n'.join('ORACLE: %s' % w for _, w, _ in fails)
+    if case.get('inherit'):
+        answers, fails = run_inherit(case['dc'], [tuple(o) for o in case['ops']])
+        return not fails, '\n'.join(answers + ['ORACLE: %s' % w for _, w, _ in fails])
     if case.get('cascade'):
         answers, fails = run_cascade(case['dc'], [tuple(o) for o in case['ops']])
         return not fails, '\n'.join(answers + ['ORACLE: %s' % w for _, w, _ in fails])
